@@ -555,7 +555,13 @@ func VerifH03s() {
 	}
 	sawX := false
 	for k := 0; k < K; k++ {
-		switch vChoose(7) {
+		switch vChoose(7 + vParam("COPY", 0)) {
+		case 7:
+			// a COPY-in cycle: the handler reads chunk by chunk and records every
+			// payload it is handed; two CopyData messages, then CopyDone
+			stream = vCat(stream, vMsgBytes('Q', vCStr([]byte("copy"))),
+				vMsgBytes('d', nondetBytes(1)), vMsgBytes('d', nondetBytes(1)), vMsgBytes('c', nil))
+			vReach("copy-in-with-two-copydata-messages")
 		case 0:
 			stream = vCat(stream, vMsgBytes('Q', vCStr([]byte{'a' + nondetByte()%2})))
 		case 1:
@@ -590,7 +596,30 @@ func VerifH03s() {
 				return ctx, password == "pw", nil
 			})))
 		}
-		srv, err := NewServer(w.parse, opts...)
+		parse := func(ctx context.Context, query string) (PreparedStatements, error) {
+			if query != "copy" {
+				return w.parse(ctx, query)
+			}
+			w.events = append(w.events, vEvent{kind: 'p', query: []byte(query)})
+			fn := func(ctx context.Context, dw DataWriter, params []Parameter) error {
+				cr, err := dw.CopyIn(TextFormat)
+				if err != nil {
+					return err
+				}
+				for n := 0; n < 4; n++ {
+					if err := cr.Read(); err != nil {
+						if err == io.EOF {
+							return dw.Complete("COPY")
+						}
+						return err
+					}
+					w.events = append(w.events, vEvent{kind: 'd', query: append([]byte{}, cr.Msg...)})
+				}
+				return dw.Complete("COPY")
+			}
+			return Prepared(NewStatement(fn, WithColumns(vTextColumns(1)))), nil
+		}
+		srv, err := NewServer(parse, opts...)
 		vAssert("newserver-ok", err == nil)
 		c := vNewConn(stream)
 		c.in.chunk = chunk
